@@ -613,6 +613,32 @@ class C19(Check):
                 y = x.copy()
                 cp.append([bool(x == y), bool(y == x), hash(x) == hash(y)])
             out["copy"] = cp
+        if kind in ("term", "tl", "contract"):
+            # objects derived from an object that HAS BEEN hashed (above) against the same derivation of a freshly built, never
+            # hashed twin: equal fields, so they must compare equal and hash alike (a hash memoised on the source and carried
+            # along by copy() shows here and nowhere else)
+            from pacti.iocontract import Var
+            dv = []
+            for x, o in zip(built, case["objs"]):
+                if x is None:
+                    dv.append(None)
+                    continue
+                try:
+                    names = [str(v) for v in (x.vars if kind != "contract" else x.inputvars + x.outputvars)]
+                    if not names:
+                        dv.append(None)
+                        continue
+                    src = Var(sorted(names)[0])
+                    twin = build(kind, o)
+                    y, z = x.rename_variable(src, Var("zz9")), twin.rename_variable(src, Var("zz9"))
+                    rec = [bool(y == z), bool(z == y), hash(y) == hash(z)]
+                    if kind == "term":
+                        y2, z2 = x.remove_variable(src), twin.remove_variable(src)
+                        rec += [bool(y2 == z2), hash(y2) == hash(z2)]
+                    dv.append(rec)
+                except Exception as e:  # noqa: BLE001
+                    dv.append({"err": C.classify_exc(e)})
+            out["derived"] = dv
         if kind in ("contract", "compound"):
             # field-wise comparisons as pacti itself makes them (reported in replays; the judge does not rely on them)
             fw = {}
@@ -783,6 +809,12 @@ class C19(Check):
                 if cp is not None and cp != [True, True, True]:
                     return {"signature": "copy:not-equal" if not (cp[0] and cp[1]) else "copy:different-hash",
                             "what": f"x == x.copy(), x.copy() == x, hash(x) == hash(x.copy()) is {cp} for a {kind}", "witness": wit(i, i)}
+        # 4b. the same derivation of a hashed object and of its never-hashed twin: equal, and equal hashes
+        for i, rec in enumerate(impl.get("derived") or []):
+            if isinstance(rec, list) and not all(rec):
+                what = "compare unequal" if not (rec[0] and rec[1] and (len(rec) < 4 or rec[3])) else "are equal but hash differently"
+                return {"signature": "eq-hash:derived-after-hashing", "what": f"renaming / removing a variable in a {kind} that has been hashed and in a freshly built equal {kind}: the results {what} ({rec})",
+                        "witness": wit(i, i)}
         # 5. equal objects have equal hashes
         for i in range(n):
             for j in range(i + 1, n):
